@@ -10,7 +10,7 @@ import (
 
 // VerifC11Snapshot: histories over all metric kinds on a test scope and a derived
 // scope; a snapshot taken mid-way and one at the end are compared with a reference tally.
-func VerifC11Snapshot() { c11Snapshot(2, false) }
+func VerifC11Snapshot()  { c11Snapshot(2, false) }
 func VerifC11Snapshot3() { c11Snapshot(3, false) }
 func VerifC11DupBounds() { c11Snapshot(2, true) }
 
